@@ -541,10 +541,12 @@ def t2(prog):
 # R4: origin / chain / layout pairing
 
 def r4(prog):
-    inst, findings = [], []
+    """origin/chain/layout pairing: build.cc by abstract evaluation (rules/r_build.py), the overload_instance constructor by shape"""
+    import r_build
+    inst, findings = r_build.r4(prog)
     targets = []
     for f in prog.funcs.values():
-        if f["n"] in ("build_exec", "build_pred", "overload_instance") and prog.rel(f["file"]).startswith("libzwerg/") \
+        if f["n"] in ("overload_instance",) and prog.rel(f["file"]).startswith("libzwerg/") \
            and f.get("body"):
             if any(True for x in walk(f["body"]) if x.get("k") == "call" and x.get("f", "").startswith(("std::make_shared<op_origin", "std::make_shared<stringer_origin"))):
                 targets.append(f)
